@@ -116,6 +116,17 @@ prop('C04', 'other',
      'max_iter <= 3; order of convergence (a limit) outside.',
      'bounded symbolic execution of the real Newton step + z3 per-path queries', 'DESIGN.md 3/C04')
 
+prop('C16', 'other',
+     'PARTIAL. Real SuiteSparseSolver.solve and SpSolve.solve with the C-library calls replaced by a typestate model (symbolic '
+     'factor remembers its pattern, numeric factor its matrix version; stale pattern => ValueError, singular => ArithmeticError with '
+     'singularity a symbolic boolean per matrix), all call sequences <= 3: a result without NaN was computed with factors of the '
+     'current matrix, singular => all-NaN, bounded retries; real ImplicitIter.step / PFlow.nr_step announce every Jacobian '
+     'rebuild to the solver; ipadd and rebuild accumulation of the real System.j_update agree entry-wise at a symbolic operating '
+     'point.',
+     'NOT covered (not encodable): numerical agreement of KLU/UMFPACK/SuperLU, numba on/off, bit-reproducibility across processes '
+     '(C libraries, float non-associativity), CuPy.',
+     'symbolic execution of the real wrapper over a typestate model of the factorisation objects', 'DESIGN.md 3/C16')
+
 ORDER = ['C%02d' % i for i in range(1, 21)]
 checks, na = [], []
 for pid in ORDER:
